@@ -19,6 +19,7 @@ def main():
     ap.add_argument('--shards', type=int, default=None)
     ap.add_argument('--shard')
     ap.add_argument('--out')
+    ap.add_argument('--fuzz', action='store_true')
     a = ap.parse_args()
     seed = a.seed
     if seed is None:
@@ -46,13 +47,24 @@ def main():
     logging.getLogger('pyworkers').addHandler(logging.NullHandler())
     logging.getLogger('pyworkers').propagate = False
     try:
-        mod = importlib.import_module('props.' + a.prop.lower())
+        if a.fuzz:
+            # coverage-guided shard: the code under test is imported under atheris' bytecode instrumentation (the harness is not)
+            sys.path.append(os.path.join(core.VERIF, '.deps'))
+            import atheris
+            with atheris.instrument_imports(include=['pyworkers']):
+                import pyworkers.utils, pyworkers.remote_pickle, pyworkers.pool, pyworkers.worker  # noqa: F401,E401
+                mod = importlib.import_module('props.' + a.prop.lower())
+        else:
+            mod = importlib.import_module('props.' + a.prop.lower())
     except ImportError as e:
         print(f'HARNESS-ERROR: cannot load property module for {a.prop}: {e}', file=sys.stderr)
         return 2
 
     if a.shard:
         i, n = a.shard.split('/')
+        if a.fuzz:
+            core.run_fuzz_shard(mod, a.tier, seed, int(i), int(n), a.out)
+            return 0
         core.run_shard(mod, a.tier, seed, int(i), int(n), a.out)
         return 0
     if a.replay:
